@@ -159,4 +159,17 @@ theorem flagIntersection_ok {g : UGraph} {fl fl' : Flags} {otherNames : List Str
     have : ¬ m < g.nodes.length := by omega
     simp [List.mem_range, this]
 
+theorem bind_ok {α β : Type} {x : Except Err α} {f : α → Except Err β} {y : β} (h : (x >>= f) = .ok y) :
+    ∃ a, x = .ok a ∧ f a = .ok y := by
+  cases x with
+  | error e => simp [bind, Except.bind] at h
+  | ok a => exact ⟨a, rfl, h⟩
+
+theorem mapAssertion_ok {r : Except Err Flags} {fl : Flags} (h : mapAssertion r = .ok fl) : r = .ok fl := by
+  unfold mapAssertion at h
+  split at h
+  · simp at h
+  · exact h
+
+
 end I2N.Tools
